@@ -143,16 +143,12 @@ CHECKS = {
 
 
 def in_domain(pid, vclass):
-    """Routing (DESIGN 2.6): a check raises VIOLATION only for its own property. Engine-oracle classes carry the
-    property id; sanitizer memory errors and hangs inside the mechanism under test count for that property; undefined
-    behaviour and aborts are C05's subject and are only noted by the other checks."""
-    if pid == "C05":
-        return True
-    if vclass.startswith(pid + ":") or vclass.startswith("asan:") or vclass.startswith("hang:"):
-        return True   # every engine but C05 issues only in-contract calls: one that never returns violates its property
-    if vclass.startswith("tsan:") or vclass == "deadlock":
-        return pid in ("C09", "C19")
-    return False
+    """Routing. Engine-oracle classes carry the property id of their engine. Sanitizer reports (asan/ubsan/tsan), hangs,
+    std::terminate and aborts are reported under the property of the check that observed them: every engine except C05
+    issues only in-contract calls, so undefined behaviour, a crash or a call that never returns inside the mechanism a
+    check exercises means that mechanism does not do what the property says (it is a C05 violation as well; the detail
+    text says so). Only the simulator's own infrastructure classes are never a property verdict."""
+    return not vclass.startswith("infra:")
 
 
 def load_known():
@@ -225,8 +221,20 @@ def handle_violation(pid, rec, exe, engine, tier, log, shrink=True):
         recs, rc, tail = runner.exec_plan(exe, plan)
         r = recs[0] if recs else None
         obs.append((r.verdict, r.vclass, r.digest) if r else ("NONE", "", ""))
-    # verdict and class must reproduce; the result digest of a VIOLATING run may legitimately vary (a use-after-free reads garbage)
-    if obs[0][:2] != obs[1][:2] or obs[0][0] != "VIOL" or obs[0][1] != rec.vclass:
+    # The VERDICT must reproduce in both fresh-process replays. The class usually does too; for memory-unsafe defects (a
+    # use-after-free reads garbage, several sanitizer reports compete) the class or the computed values may vary between
+    # executions of the same plan: then the plan is reported unshrunk under the class of the first replay.
+    unstable = False
+    if obs[0][0] == "VIOL" and obs[1][0] == "VIOL" and (obs[0][1] != obs[1][1] or obs[0][1] != rec.vclass):
+        if obs[0][1] == obs[1][1]:
+            log("  note: batch class %s, both fresh-process replays give %s: reported under the replayed class" % (rec.vclass, obs[0][1]))
+        else:
+            log("  note: seed %d violates the property in every execution but under varying classes (%s / %s / %s): memory-unsafe behaviour; not shrunk" %
+                (rec.seed, rec.vclass, obs[0][1], obs[1][1]))
+            unstable = True
+            shrink = False
+        rec.vclass = obs[0][1]
+    if obs[0][0] != "VIOL" or obs[1][0] != "VIOL":
         hist = history_violation(pid, rec, exe, engine, tier, log, obs)
         if hist is not None:
             return hist
@@ -249,7 +257,7 @@ def handle_violation(pid, rec, exe, engine, tier, log, shrink=True):
         f.write("property %s\nexpect %s\nnote flavour=%s cache=%d worker=%s shrink_execs=%d\n" % (pid, rec.vclass, rec.flavour, rec.cache, os.path.basename(exe), sh.execs))
     # confirm by replaying the file in a fresh process
     recs, rc, tail = runner.exec_plan(exe, open(path).read())
-    if not any(r.verdict == "VIOL" and r.vclass == rec.vclass for r in recs):
+    if not any(r.verdict == "VIOL" and (unstable or r.vclass == rec.vclass) for r in recs):
         print("INFRA-ERROR replay file %s does not reproduce %s" % (path, rec.vclass), flush=True)
         raise SystemExit(2)
     detail = recs[0].detail if recs and recs[0].detail else rec.detail
@@ -330,7 +338,7 @@ def run_check(pid, tier, seed, nworkers=None, runs_override=None):
     classes = [(c, r) for c, r in by_class.items() if in_domain(pid, c)]
     foreign = [(c, r) for c, r in by_class.items() if not in_domain(pid, c)]
     for c, r in foreign:
-        print("NOTE: %s run seed=%d ended in a C05-class event (%s); not a %s verdict, see check C05" % (pid, r.seed, c, pid), flush=True)
+        print("NOTE: %s run seed=%d ended in an infrastructure event (%s)" % (pid, r.seed, c), flush=True)
     for ci, (vclass, r) in enumerate(classes[:12]):
         info = handle_violation(pid, r, r.exe, r.engine, tier, log, shrink=(ci < 4))
         if vclass in known_sigs:
